@@ -439,8 +439,17 @@ def write_output(m, path, nout=None, max_level_written=None):
                         _ints(f, np.arange(n) + 1)      # nbor
                     for ind in range(T):
                         _ints(f, son[:, ind])
+                    # cpu_map: per cell, the domain that holds the cell's own key (an oct lives with its father cell, so the
+                    # cells of an oct that straddles a domain boundary name other domains than the one the oct is stored in)
+                    cmap = np.full((n, T), dom + 1, dtype=np.int64)
+                    if kind != "boundary" and case.get("cpu_map", "cell") == "cell" and ncpu > 1:
+                        cc = cen[:, None, :] + child_offsets(ndim)[None, :, :] * 0.5 ** (l + 1)
+                        ck = _father_keys(cc.reshape(-1, ndim), ndim, case["levelmax"])
+                        nk = 1 << (ndim * (case["levelmax"] + 1))
+                        own = np.searchsorted(np.asarray(m.bound_key[1:], dtype=object if nk > 2 ** 62 else np.int64), ck, side="right")
+                        cmap = (np.clip(own.astype(np.int64), 0, ncpu - 1) + 1).reshape(n, T)
                     for ind in range(T):
-                        _ints(f, np.full(n, dom + 1))   # cpu_map
+                        _ints(f, cmap[:, ind])          # cpu_map
                     for ind in range(T):
                         _ints(f, np.zeros(n))           # flag1
 
